@@ -270,6 +270,7 @@ type Violation struct {
 	Unit      string `json:"unit,omitempty"`
 	Seed      uint64 `json:"seed"`
 	Case      *Case  `json:"case"`
+	Arch      string `json:"arch,omitempty"` // set when the run was not on the default platform (e.g. "386")
 }
 
 func (v *Violation) Key() string { return v.Oracle + "|" + v.Target + "|" + v.Signature }
@@ -308,21 +309,21 @@ type Ctx struct {
 	unit string
 	J    *Journal
 
-	rep      *Report
-	hashes   map[uint64]struct{}
-	vioSeen  map[string]int
-	sampleN  int64
-	held     []heldResult
-	curCase  *Case
-	Scratch  map[string]interface{} // per-shard caches owned by monitors
+	rep     *Report
+	hashes  map[uint64]struct{}
+	vioSeen map[string]int
+	sampleN int64
+	held    []heldResult
+	curCase *Case
+	Scratch map[string]interface{} // per-shard caches owned by monitors
 
 	// interleaved re-execution (see Do)
-	recent  []*Case
-	doSeq   int
-	wrapB   *Case // set while an earlier case is re-run after wrapB
-	wrapA   *Case
-	wrapV   *Case // set while a case is re-run with the library's logging at Trace level
-	Reruns  int64
+	recent []*Case
+	doSeq  int
+	wrapB  *Case // set while an earlier case is re-run after wrapB
+	wrapA  *Case
+	wrapV  *Case // set while a case is re-run with the library's logging at Trace level
+	Reruns int64
 }
 
 func NewCtx(p *Property, tier string, seed uint64, shard, n int, j *Journal) *Ctx {
@@ -784,7 +785,7 @@ func bytesEqual(a, b []byte) bool {
 
 type Unit struct {
 	Name   string
-	Weight int // relative cost, for balancing
+	Weight int  // relative cost, for balancing
 	Solo   bool // must run in a shard of its own process (metering)
 	Fresh  bool // must run in a process of its own whose package state is cold; normal scheduling
 	Run    func(c *Ctx)
@@ -806,7 +807,7 @@ type Property struct {
 	// Shards caps the number of shard processes (0 = one per core, at most 16).
 	Shards int
 	// Post runs in the driver after all shards finished (race-log parsing etc.).
-	Post func(pi *PostInfo) (vios []*Violation, inconclusive []string)
+	Post       func(pi *PostInfo) (vios []*Violation, inconclusive []string)
 	Interleave []string // oracles whose cases take part in interleaved re-execution (cheap, self-contained per case)
 }
 
